@@ -463,9 +463,28 @@ func (fs SFlowFlowSample) GetType() SFlowSampleType {
 	return SFlowTypeFlowSample
 }
 
-func skipRecord(data *[]byte) {
-	recordLength := int(binary.BigEndian.Uint32((*data)[4:]))
-	*data = (*data)[(recordLength+((4-recordLength)%4))+8:]
+func skipRecord(data *[]byte) error {
+	if len(*data) < 8 {
+		return errors.New("sflow record header too small")
+	}
+	recordLength := binary.BigEndian.Uint32((*data)[4:])
+	skip, err := sflowPaddedLen((*data)[8:], recordLength)
+	if err != nil {
+		return err
+	}
+	*data = (*data)[8+skip:]
+	return nil
+}
+
+// sflowPaddedLen returns n rounded up to the next multiple of 4, the size an
+// opaque or string of length n occupies on the wire. It fails if data does not
+// hold that many bytes.
+func sflowPaddedLen(data []byte, n uint32) (int, error) {
+	padded := uint64(n) + uint64((4-n%4)%4)
+	if padded > uint64(len(data)) {
+		return 0, fmt.Errorf("sflow field length %d exceeds remaining %d bytes", n, len(data))
+	}
+	return int(padded), nil
 }
 
 func decodeFlowSample(data *[]byte, expanded bool) (SFlowFlowSample, error) {
@@ -615,31 +634,45 @@ func decodeFlowSample(data *[]byte, expanded bool) (SFlowFlowSample, error) {
 				}
 			case SFlowTypeExtendedMlpsFlow:
 				// TODO
-				skipRecord(data)
+				if err := skipRecord(data); err != nil {
+					return s, err
+				}
 				return s, errors.New("skipping TypeExtendedMlpsFlow")
 			case SFlowTypeExtendedNatFlow:
 				// TODO
-				skipRecord(data)
+				if err := skipRecord(data); err != nil {
+					return s, err
+				}
 				return s, errors.New("skipping TypeExtendedNatFlow")
 			case SFlowTypeExtendedMlpsTunnelFlow:
 				// TODO
-				skipRecord(data)
+				if err := skipRecord(data); err != nil {
+					return s, err
+				}
 				return s, errors.New("skipping TypeExtendedMlpsTunnelFlow")
 			case SFlowTypeExtendedMlpsVcFlow:
 				// TODO
-				skipRecord(data)
+				if err := skipRecord(data); err != nil {
+					return s, err
+				}
 				return s, errors.New("skipping TypeExtendedMlpsVcFlow")
 			case SFlowTypeExtendedMlpsFecFlow:
 				// TODO
-				skipRecord(data)
+				if err := skipRecord(data); err != nil {
+					return s, err
+				}
 				return s, errors.New("skipping TypeExtendedMlpsFecFlow")
 			case SFlowTypeExtendedMlpsLvpFecFlow:
 				// TODO
-				skipRecord(data)
+				if err := skipRecord(data); err != nil {
+					return s, err
+				}
 				return s, errors.New("skipping TypeExtendedMlpsLvpFecFlow")
 			case SFlowTypeExtendedVlanFlow:
 				// TODO
-				skipRecord(data)
+				if err := skipRecord(data); err != nil {
+					return s, err
+				}
 				return s, errors.New("skipping TypeExtendedVlanFlow")
 			case SFlowTypeExtendedIpv4TunnelEgressFlow:
 				if record, err := decodeExtendedIpv4TunnelEgress(data); err == nil {
@@ -692,8 +725,8 @@ func decodeFlowSample(data *[]byte, expanded bool) (SFlowFlowSample, error) {
 			default:
 				return s, fmt.Errorf("Unsupported flow record type: %d", flowRecordType)
 			}
-		} else {
-			skipRecord(data)
+		} else if err := skipRecord(data); err != nil {
+			return s, err
 		}
 	}
 	return s, nil
@@ -846,10 +879,14 @@ func decodeCounterSample(data *[]byte, expanded bool) (SFlowCounterSample, error
 				return s, err
 			}
 		case SFlowTypeTokenRingInterfaceCounters:
-			skipRecord(data)
+			if err := skipRecord(data); err != nil {
+				return s, err
+			}
 			return s, errors.New("skipping TypeTokenRingInterfaceCounters")
 		case SFlowType100BaseVGInterfaceCounters:
-			skipRecord(data)
+			if err := skipRecord(data); err != nil {
+				return s, err
+			}
 			return s, errors.New("skipping Type100BaseVGInterfaceCounters")
 		case SFlowTypeVLANCounters:
 			if record, err := decodeVLANCounters(data); err == nil {
